@@ -466,6 +466,7 @@ func TestCheck(t *testing.T) {
 	timed("P4_huffman", "4", func() { partHuffman(h) })
 	timed("P2a_P2c_decoder", "2", func() { partDecoder(h, "early") })
 	timed("P1_roundtrip_bfs", "1", func() { partRoundTrip(h) })
+	timed("P6_encoder_integers", "6", func() { partEncoderIntegers(h) })
 	timed("P2b_P5_decoder", "2", func() { partDecoder(h, "late") })
 	rep.Add("wall_ms_shard", time.Since(h.start).Milliseconds())
 }
